@@ -27,6 +27,11 @@ def cases(tier):
         for strict in (True, False):
             for req in NAMES[:nvars] + ['ZZ']:
                 cs.append({'nvars': nvars, 'strict': strict, 'req': req, 'L': L, 'text': 'let v = env.%s;' % req})
+    # names the operating system allows but that are not UCG barewords are read with a quoted selector
+    for names in (['_TOKEN', 'AA'], ['0DAY', '_'], ['A.B', 'a-b'], ['lower', 'MiXed_9'], ['BASH_FUNC_x%%', 'AA'], ['AA', 'A'], ['A B', 'AA']):
+        for strict in (True, False):
+            for req in names + ['_UNSET']:
+                cs.append({'nvars': len(names), 'names': names, 'strict': strict, 'req': req, 'L': L, 'text': 'let v = env."%s";' % req})
     for strict in (True, False):
         cs.append({'nvars': 2, 'strict': strict, 'req': None, 'L': L, 'text': 'let t = {env = 1}; let v = t.env;'})
         cs.append({'nvars': 2, 'strict': strict, 'req': None, 'L': L, 'text': 'let env = 1;', 'expect_reject': True})
@@ -81,13 +86,14 @@ def harness(ctx, case):
     ucgrun.install_parse_override(prog)
     out = {'reached': True, 'asserts': 1, 'violations': []}
     vals = {}
+    names = case.get('names') or NAMES
     for i in range(case['nvars']):
         bs = []
         for j in range(case['L']):
-            v = ctx.bv('%s_%d' % (NAMES[i], j), 8)
+            v = ctx.bv('v%d_%d' % (i, j), 8)
             ctx.assume(z3.And(z3.UGE(v, 0x21), z3.ULT(v, 0x7f), v != 0x22, v != 0x5c))
             bs.append(v)
-        vals[NAMES[i]] = SymStr(bs)
+        vals[names[i]] = SymStr(bs)
     r = ucgrun.parse_program(ctx, case['text'])
     if r.variant != 0:
         if not case.get('expect_reject'):
